@@ -801,6 +801,103 @@ def labels_stage(c):
 
 
 # ------------------------------------------------------------------ malformed stream
+def mapper_stage(c):
+  """ContinuousCategoricalFeatureMapper (feature_mapper.py) on the REAL TrialToArrayConverter output of
+  generated mixed spaces (continuous columns and one-hot blocks in any order): map -> (continuous
+  columns, index of the active entry per block), unmap -> the row again, decode -> the point again.
+  Tie: Model/FeatureMapper.lean (mapRow / unmapRow) on the same rows."""
+  import shim
+  shim.install()
+  import numpy as np
+  from vizier import pyvizier as vz
+  from vizier.pyvizier import converters
+  from vizier.pyvizier.converters import feature_mapper
+  n = 30 if c.tier == 'quick' else 300
+  reqs, metas = [], []
+  for i in range(n):
+    space = cd.gen_space(c.rng, f32=True, max_params=6, max_int_width=12)
+    if i % 3 == 0:
+      # make sure a continuous column PRECEDES a one-hot block and that block widths differ
+      space = [dict(cd.gen_double(c.rng, True), name='lead')] + space + [dict(cd.gen_categorical(c.rng), name='tail')]
+    mdi = c.rng.choice([0, 10])
+    pad = c.rng.random() < 0.5
+    try:
+      problem = cd.build_problem(vz, space)
+      conv = converters.TrialToArrayConverter.from_study_config(problem, max_discrete_indices=mdi, pad_oovs=pad)
+      mapper = feature_mapper.ContinuousCategoricalFeatureMapper(conv)
+      pts = gen_points(c.rng, space, 6)
+      pts = [pt for pt in pts if len(pt) == len(space)]
+      if not pts:
+        continue
+      trials = [vz.Trial(parameters=pt) for pt in pts]
+      feats = np.asarray(conv.to_features(trials))
+      mapped = mapper.map(feats)
+      back = np.asarray(mapper.unmap(mapped))
+      dec_direct = conv.to_parameters(feats)
+      dec_back = conv.to_parameters(back)
+    except Exception as e:  # pylint: disable=broad-except
+      c.count(1, kind='mapper:refused:' + type(e).__name__)
+      continue
+    c.traces += 1
+    specs = []
+    for sp in conv.output_specs:
+      specs.append(0 if sp.type == converters.NumpyArraySpecType.CONTINUOUS else int(sp.num_dimensions))
+    has_mixed = any(a == 0 and any(b > 0 for b in specs[k + 1:]) for k, a in enumerate(specs))
+    c.count(len(pts), ('mapper', i) if has_mixed else None, kind='mapper:' + ('mixed' if has_mixed else 'plain'))
+    case = {'space': space, 'max_discrete_indices': mdi, 'pad_oovs': pad, 'specs': specs}
+    cont = np.asarray(mapped.continuous)
+    cat = np.asarray(mapped.categorical)
+    rows = []
+    for r in range(feats.shape[0]):
+      col, cells, exp_cat, exp_cont = 0, [], [], []
+      for w in specs:
+        if w == 0:
+          cells.append(feat_json(float(feats[r, col]))); exp_cont.append(float(feats[r, col])); col += 1
+        else:
+          blk = [int(v != 0) for v in feats[r, col:col + w]]
+          cells.append(blk); col += w
+          if sum(blk) != 1:
+            c.prop_fail('onehot-block-not-one-hot', 'a one-hot block of the encoded features has %d active entries' % sum(blk), dict(case, point=pts[r]))
+          exp_cat.append(blk.index(1) if 1 in blk else -1)
+      rows.append(cells)
+      # property predicates on the REAL outputs
+      if [int(v) for v in cat[r]] != exp_cat:
+        c.prop_fail('mapper-categorical-index-wrong', 'map() gives categorical indices %s, the active entries of the one-hot blocks are at %s (layout %s)' % (
+            [int(v) for v in cat[r]], exp_cat, specs), dict(case, point=pts[r], features=[float(v) for v in feats[r]]))
+        break
+      if len(cont[r]) != len(exp_cont) or not np.allclose([float(v) for v in cont[r]], exp_cont, rtol=2e-6, atol=1e-7):
+        c.prop_fail('mapper-continuous-columns-wrong', 'map() gives continuous values %s, the continuous columns hold %s' % ([float(v) for v in cont[r]], exp_cont), dict(case, point=pts[r]))
+        break
+      # one-hot columns exactly; continuous columns to float32 accuracy (the mapper's arrays are jax float32)
+      hot_cols = [k for k, w in zip(range(len(specs)), specs) if w]
+      col, hot_mask = 0, []
+      for w in specs:
+        hot_mask += [w != 0] * (w or 1)
+      hot_mask = np.asarray(hot_mask)
+      if back[r].shape != feats[r].shape or not np.array_equal(back[r][hot_mask], feats[r][hot_mask]) or \
+         not np.allclose(back[r][~hot_mask], feats[r][~hot_mask], rtol=2e-6, atol=1e-7):
+        c.prop_fail('mapper-unmap-not-inverse', 'unmap(map(row)) = %s differs from the row %s (layout %s)' % ([float(v) for v in back[r]], [float(v) for v in feats[r]], specs),
+                    dict(case, point=pts[r]))
+        break
+      db, dd = dict(dec_back[r]), dict(dec_direct[r])
+      same = set(db) == set(dd) and all(
+          (np.isclose(float(db[k].value), float(dd[k].value), rtol=1e-5, atol=1e-30) if isinstance(dd[k].value, float) and not float(dd[k].value).is_integer()
+           else db[k].value == dd[k].value or (isinstance(dd[k].value, float) and np.isclose(float(db[k].value), float(dd[k].value), rtol=1e-5)))
+          for k in dd)
+      if not same:
+        c.prop_fail('mapper-roundtrip-changes-point', 'decoding unmap(map(features)) gives %s, decoding the features gives %s' % (dict(dec_back[r]), dict(dec_direct[r])), dict(case, point=pts[r]))
+        break
+    reqs.append({'op': 'fmap', 'specs': specs, 'rows': rows})
+    metas.append((case, cont, cat, feats))
+  for (case, cont, cat, feats), m in zip(metas, c.lean(DRIVER, reqs) if reqs else []):
+    if 'error' in m:
+      raise core.InfraError('driver: %s' % m['error'])
+    for r, mr in enumerate(m['rows']):
+      if mr['cat'] != [int(v) for v in cat[r]] or len(mr['cont']) != len(cont[r]) or mr['back'] is None:
+        c.tie_break('feature mapper (map / unmap)', dict(case, row=r), {'cat': [int(v) for v in cat[r]]}, {'cat': mr['cat'], 'back': mr['back'] is not None})
+        break
+
+
 def malformed_stage(c):
   """documented preconditions violated: the only oracle is 'refused with an error'."""
   from vizier import pyvizier as vz
@@ -822,6 +919,7 @@ def run(c):
   codec_stage(c, fixed)
   scaler_stage(c, fixed)
   labels_stage(c)
+  mapper_stage(c)
   malformed_stage(c)
   return c.finish(
       level='proof',
